@@ -89,6 +89,8 @@ def run(ctx):
             r1b.violation(key, "Z is %s, not derived from block_partitioning" % show(a["value"], 100), loc(a["sp"]))
     r1b.floor(4, "2 readers + 2 Z writes")
 
+    z_range_rule(ctx, ctx.rule("C07.R5", Z_TEXT, "E4 range of the written value vs the reader's refusal"))
+
     # ---- R1c: the receiver hands its partition to block_length under the right parameter names --------------------------
     r1c = ctx.rule("C07.R1c", "every call of partition::block_length passes (self.a_large, self.a_small, self.nb_a_large, transfer length, "
                               "oti.encoding_symbol_length, packet SBN) in the callee's parameter order, and those three fields are exactly the "
@@ -142,6 +144,67 @@ def run(ctx):
     r1c.floor(10, "block_length arguments and partition components")
     partition_polynomials(ctx)
 
+
+
+Z_TEXT = ("the number of source blocks Z the sender stores for RaptorQ / Raptor (written into EXT_FTI and the FDT) lies in the range the "
+          "receiver's get_fti accepts: the readers refuse Z == 0 (and would divide by it), so the written value must be >= 1 for every object "
+          "the sender accepts - including an empty one, for which block_partitioning yields 0 blocks")
+
+
+def z_range_rule(ctx, rule):
+    from .. import ranges
+    prog = ctx.prog
+    # reader side: which values of Z are refused
+    refuses_zero = {}
+    for codec, ss in (("alcraptorq::AlcRaptorQ", "RaptorQ"), ("alcraptor::AlcRaptor", "Raptor")):
+        f = prog.fn("<common::alccodec::%s as common::alccodec::AlcCodec>::get_fti" % codec)
+        fl = Flow(f.body)
+        errs = ret_assign_blocks(f.body, lambda e: is_variant(e, "Err"))
+        rz = any(any(a[0] == "eq" and t and re.match(r"^z$|source_blocks", show(a[1])) and show(a[2]) == "0" or
+                     a[0] == "eq" and t and re.match(r"^z$|source_blocks", show(a[2])) and show(a[1]) == "0" for (a, t) in fl.facts_at(bb)) for bb, _ in errs)
+        refuses_zero[ss] = rz
+        if rz:
+            rule.ok("%s get_fti refuses Z == 0" % ss, "reader-side acceptance: Z >= 1", loc(f.sp))
+        else:
+            rule.ok("%s get_fti accepts Z == 0" % ss, "no refusal found: the writer range is not constrained by the reader", loc(f.sp))
+    w = prog.fn("sender::filedesc::FileDesc::new")
+    ctx.analysed(w.path)
+    rp = ranges.analyse(prog, w)
+    n = 0
+    for blk in w.body.blocks:
+        if blk.cleanup:
+            continue
+        for i, st in enumerate(blk.stmts):
+            if not (st.k == "assign" and st.lhs[1]):
+                continue
+            last = st.lhs[1][-1]
+            if not (isinstance(last, tuple) and len(last) >= 4 and last[0] == "f" and last[2] == "source_blocks_length"):
+                continue
+            ss = "RaptorQ" if "RaptorQ" in last[3] else "Raptor"
+            s0 = rp.entry.get(blk.i)
+            val = None
+            if s0 is not None:
+                s0 = s0.copy()
+                for j, s2 in enumerate(blk.stmts):
+                    if j == i:
+                        if s2.rv.k == "use":
+                            val = rp.operand(s0, s2.rv.ops[0])[0]
+                        break
+                    if s2.k == "assign":
+                        rp.assign(s0, s2.lhs, s2.rv, blk.i, s2.sp)
+            n += 1
+            key = "FileDesc::new writes %s Z" % ss
+            if val is None:
+                rule.violation(key, "range of the written value unknown", loc(st.sp))
+            elif refuses_zero.get(ss) and val[0] < 1:
+                rule.violation(key, "the Z written for %s ranges over [%s, %s]: 0 is written for an empty object (block_partitioning returns 0 blocks for a "
+                                    "transfer length of 0) and flute's own receiver rejects the packet carrying it (\"Z is null\"): an accepted empty "
+                                    "object is never delivered" % (ss, val[0], val[1]), loc(st.sp))
+            else:
+                rule.ok(key, "range [%s, %s]" % val, loc(st.sp))
+    if n < 2:
+        raise model.AnchorMissing("FileDesc::new: %d writes of source_blocks_length found, expected 2" % n)
+    rule.floor(4, "2 readers + 2 writers")
 
 
 def partition_polynomials(ctx, prefix="C07.R"):
